@@ -151,6 +151,11 @@ def explore(item):
         for g, v in zip(G[:ng], VALS):
             kw[g] = v
         declared, given = D[:nd], list(kw.keys())
+        # the built-in parameter project_root, spelled relative to the working directory and not normalised:
+        # it reaches every model of the load exactly as given, like any other parameter
+        c._project_root = c.branch(z3.Bool('project_root_given'))
+        if c._project_root:
+            kw['project_root'] = os.path.join(os.path.relpath(tmp), '.', '')
         # accepted  <=>  every given name equals some declared name
         ok_formula = And(*[Or(*[g.t == d.t for d in declared]) for g in given])
         files = FILES2 if two else FILES
@@ -227,10 +232,11 @@ def describe(c, D, G, nd, ng):
     def name(k):
         v = str(m.eval(k.t, model_completion=True))
         return names.setdefault(v, 'p%d' % len(names))
-    return {'declared': [name(d) for d in D[:nd]], 'given': [name(g) for g in G[:ng]]}
+    return {'declared': [name(d) for d in D[:nd]], 'given': [name(g) for g in G[:ng]],
+            'project_root': bool(getattr(c, '_project_root', False))}
 
 
-def replay_concrete(pi, ki, global_repo, declared, given):
+def replay_concrete(pi, ki, global_repo, declared, given, project_root=False):
     """the same scenario with ordinary strings"""
     from textx import metamodel_from_str
     from textx.exceptions import TextXError
@@ -261,6 +267,8 @@ def replay_concrete(pi, ki, global_repo, declared, given):
             mm.model_param_defs.add(d, 'declared')
         kw = {g: v for g, v in zip(given, [0, ('v', 1), ''])}
         should_accept = all(g in declared for g in kw)
+        if project_root:
+            kw['project_root'] = os.path.join(os.path.relpath(tmp), '.', '')
         mainname = 'main.qa' if two else 'main.m'
         main = os.path.join(tmp, mainname)
         try:
@@ -333,13 +341,13 @@ def main():
                                                                           r['accepted'], r['rejected']))
         for what, naming in r['bad'][:1]:
             naming = naming or {'declared': [], 'given': []}
-            bad, detail = replay_concrete(it[0], it[1], it[2], naming['declared'], naming['given'])
+            bad, detail = replay_concrete(it[0], it[1], it[2], naming['declared'], naming['given'], naming.get('project_root', False))
             chk.cov['traces_validated_against_impl'] += 1
             if bad:
                 chk.violation('%s, %s load, global repository %s, declared %s, given %s: %s (replay: %s)' % (
                     r['provider'], r['kind'], r['global_repo'], naming['declared'], naming['given'], what, detail),
                     {'provider': it[0], 'kind': it[1], 'global_repo': it[2], 'declared': naming['declared'],
-                     'given': naming['given']})
+                     'given': naming['given'], 'project_root': naming.get('project_root', False)})
             else:
                 chk.harness_error('symbolic run reports %r but the concrete replay does not reproduce it (%s)'
                                   % (what, detail))
@@ -354,4 +362,5 @@ def main():
 
 
 def replay(data):
-    return replay_concrete(data['provider'], data['kind'], data['global_repo'], data['declared'], data['given'])
+    return replay_concrete(data['provider'], data['kind'], data['global_repo'], data['declared'], data['given'],
+                           data.get('project_root', False))
